@@ -989,31 +989,9 @@ pub fn c16(ctx: &mut Ctx) -> String {
         case_cli(ctx, &case);
         // a JSON and a Gambit encoding of the same game give the same solution
         if i % 4 == 0 && T::from_json(&case["tree"]).map(|t| t.depth() <= JSON_MAX_DEPTH).unwrap_or(false) {
-            let mut a = case.clone();
-            let mut b = case.clone();
-            a["format"] = json!("json");
-            a["k"] = json!(0.0);
-            b["format"] = json!("gambit");
-            b["k"] = json!(0.0);
-            b["interior"] = json!(false);
-            for c in [&mut a, &mut b] {
-                c["route"] = json!("file-ext");
-                c["outfile"] = json!(false);
-                c["p"] = json!(1);
-            }
-            let ra = twin_output(ctx, &a);
-            let rb = twin_output(ctx, &b);
-            match (ra, rb) {
-                (Some(x), Some(y)) => {
-                    let d = named_diff(&x[0], &y[0]).max(named_diff(&x[1], &y[1]));
-                    if !(d <= 1e-9) {
-                        ctx.fail_prop(&a, format!("the JSON and the Gambit encoding of one game give solutions differing by {:e}", d));
-                    } else {
-                        ctx.stat("json_gambit_twins_agree");
-                    }
-                }
-                _ => ctx.fail_prop(&a, "a twin encoding could not be solved".to_string()),
-            }
+            let mut tw = case.clone();
+            tw["op"] = json!("cli-twins");
+            case_twins(ctx, &tw);
         }
     }
     // zero iterations means no limit: needs a positive regret threshold
@@ -1024,12 +1002,89 @@ pub fn c16(ctx: &mut Ctx) -> String {
     "generated valid files x -m full x -d x -t (incl. 0 = unlimited with -r > 0) x -r x -p {1, 2} x -c x input routes {file by extension, stdin auto, stdin explicit, other extension auto / explicit} x {-o file, stdout}: printed strategies against Game::solve + truncate + get_info called in-process with the mapped arguments (bit-equal for -p 1); JSON / Gambit twins of one game; the same runs against the model of the command-line layer (Model/Cli.lean: format selection, conversion, option mapping, solve, clip step, output assembly) on the AST the real third-party parser returns for the file text".to_string()
 }
 
+/// a JSON and a Gambit encoding of the same game give the same solution (`-m full -p 1`)
+pub fn case_twins(ctx: &mut Ctx, case: &Value) {
+    ctx.record_current(case);
+    let mut a = case.clone();
+    let mut b = case.clone();
+    a["format"] = json!("json");
+    a["k"] = json!(0.0);
+    b["format"] = json!("gambit");
+    b["k"] = json!(0.0);
+    b["interior"] = json!(false);
+    // the same game: pair sums exactly constant (a file whose sums vary inside the tolerance
+    // is read as a slightly shifted game)
+    if b["efg"].is_object() {
+        b["efg"]["near"] = json!("off");
+    }
+    for c in [&mut a, &mut b] {
+        c["route"] = json!("file-ext");
+        c["outfile"] = json!(false);
+        c["p"] = json!(1);
+    }
+    let ra = twin_output(ctx, &a);
+    let rb = twin_output(ctx, &b);
+    match (ra, rb) {
+        (Some(x), Some(y)) => {
+            let d = named_diff(&x[0], &y[0]).max(named_diff(&x[1], &y[1]));
+            if !(d <= 1e-9) {
+                // the two files give the program two games that differ by how the payoffs
+                // are written (offset, order of additions): where the trajectory hangs on
+                // an exact tie, or a probability sits at the clip threshold, the last bit
+                // decides and the two runs may legitimately part
+                let tree = T::from_json(&case["tree"]).unwrap();
+                let preset = case["discount"].as_str().unwrap_or("dcfr");
+                let params = match preset {
+                    "vanilla" => Params::vanilla(),
+                    "lcfr" => Params::lcfr(),
+                    "cfr-plus" => Params::cfr_plus(),
+                    "dcfr-prune" => Params::dcfr_prune(),
+                    _ => Params::dcfr(),
+                };
+                let iters = case["t"].as_u64().unwrap_or(1);
+                let maxreg = case["r"].as_f64().unwrap_or(0.0);
+                let clip = case["c"].as_f64().unwrap_or(0.0);
+                let c1 = crate::solve_props::Cfg { method: "F".into(), params, iters: iters.min(200), thr: maxreg, threads: 1, target: None, seed: 0 };
+                // ... measured on each of the two games as the program sees them (action order
+                // differs between the formats: a tie between the first and a later action is
+                // broken by position)
+                let mut margin = crate::solve_props::model_margin(ctx, &tree, &c1);
+                {
+                    let (t0, nseed) = case_ng(case);
+                    let mut nrng = Rng::new(nseed);
+                    let (ng, names) = name_game(&mut nrng, &t0);
+                    for gambit in [false, true] {
+                        let it = intern(&ng, &names, 0.0, gambit);
+                        margin = margin.min(crate::solve_props::model_margin(ctx, &it.tree, &c1));
+                    }
+                }
+                let at_clip = clip > 0.0 && build(&tree).ok().and_then(|g| g.solve(SolveMethod::Full, iters, maxreg, 1, Some(params.to_lib())).ok().map(|(s, _)| {
+                    let n = drain_named(&s);
+                    n.iter().flatten().flat_map(|(_, acts)| acts.iter()).any(|(_, p)| (p - clip).abs() <= 1e-6 * clip)
+                })).unwrap_or(false);
+                if margin < 1e-6 || at_clip {
+                    ctx.skipped_illcond += 1;
+                    ctx.stat("twin_comparison_ill_conditioned");
+                } else {
+                    ctx.fail_prop(&a, format!("the JSON and the Gambit encoding of one game give solutions differing by {:e} (conditioning margin {:e})", d, margin));
+                }
+            } else {
+                ctx.stat("json_gambit_twins_agree");
+            }
+        }
+        _ => ctx.fail_prop(&a, "a twin encoding could not be solved".to_string()),
+    }
+}
+
 fn twin_output(ctx: &mut Ctx, case: &Value) -> Option<[Named; 2]> {
     let (t, nseed) = case_ng(case);
     let mut nrng = Rng::new(nseed);
     let (ng, names) = name_game(&mut nrng, &t);
     let gambit = case["format"].as_str() == Some("gambit");
     let content = if gambit { to_efg_file(&mut nrng, &ng, &names, 0.0, false, &EfgFeat::default()).text } else { to_json_file(&ng, &names) };
+    if let Ok(dir) = std::env::var("VERIF_DEBUG_TWINS") {
+        let _ = std::fs::write(format!("{}/twin.{}", dir, if gambit { "efg" } else { "json" }), &content);
+    }
     let f = scratch_file(ctx, if gambit { "twin.efg" } else { "twin.json" }, &content);
     let args: Vec<String> = vec![
         "-m".into(), "full".into(), "-d".into(), case["discount"].as_str().unwrap_or("dcfr").into(),
